@@ -602,7 +602,13 @@ func postSSEStress(c *hk.Ctx) {
 		bad := 0
 		for i := 0; i < rounds && bad == 0; i++ {
 			k := 1 + i%6
-			body := fmt.Sprintf(`{"jsonrpc":"2.0","id":%d,"method":"tools/call","params":{"name":"burst","arguments":{"k":%d}}}`, 100+i, k)
+			// request ids are the client's choice: numbers, and strings with anything JSON can carry (line breaks, SSE
+			// field look-alikes) — nothing of it may reach the framing of the stream
+			id := fmt.Sprint(100 + i)
+			if i%3 == 1 {
+				id = []string{`"r7\ndata: x"`, `"a\nb"`, `"x\r\nid: 9"`, `"\n\n"`, `"id: 5"`, `"e\u2028v"`, `": comment"`, `"tab\there"`}[(i/3)%8]
+			}
+			body := fmt.Sprintf(`{"jsonrpc":"2.0","id":%s,"method":"tools/call","params":{"name":"burst","arguments":{"k":%d}}}`, id, k)
 			req := httptest.NewRequest("POST", "/mcp", strings.NewReader(body))
 			req.Header.Set("Content-Type", "application/json")
 			req.Header.Set("Accept", "application/json, text/event-stream")
